@@ -182,4 +182,16 @@ theorem Runs.op {env : Env} {code f : List Instr} {c : Ctx} {l : LEnv} {pure : B
   have := Steps.trans s1 s2
   simpa [Nat.add_assoc] using this
 
+/-- an instruction that rewrites the words produced by `f` (same stack below, same memory): OP_INT_TO_DBL -/
+theorem Runs.opL {env : Env} {code f : List Instr} {c : Ctx} {l : LEnv} {pure : Bool} (i : Instr) (args res : List Int)
+    (hf : Runs env code f c l pure args)
+    (h : ∀ pc st mem its, step env i ⟨pc, args ++ st, mem, its⟩ = some ⟨pc + 1, res ++ st, mem, its⟩) :
+    Runs env code (f ++ [i]) c l pure res := by
+  intro pc st mem its hc hP hlen
+  obtain ⟨m1, e1, s1, a1, p1⟩ := hf pc st mem its hc.left hP hlen
+  refine ⟨m1, e1, ?_, a1, p1⟩
+  have s2 := Steps.one (s := ⟨pc + f.length, args ++ st, m1, its ++ e1⟩) (by simpa using hc.right.head) (h _ st m1 _)
+  have := Steps.trans s1 s2
+  simpa [Nat.add_assoc] using this
+
 end YaraModel.CondCompile
